@@ -37,6 +37,10 @@ type Hooks struct {
 	OpenFile func(name string, flag int, perm fs.FileMode) (*File, error)
 	Remove   func(name string) error
 	Rename   func(oldName, newName string) error
+	// RealPath serves the "real file" disk mode (used when the edited tree names *os.File
+	// explicitly, so that verifsim.File cannot stand in for it): it maps a file name to a
+	// path under the simulator's private directory, or returns an injected error.
+	RealPath func(op, name string) (string, error)
 	// Go is told about `go` statements found in the instrumented package (R6).
 	Go func(f func())
 	// Blocked is called by a task that cannot take a lock (or waits for a
@@ -406,6 +410,81 @@ func Remove(name string) error {
 }
 
 func Rename(o, n string) error {
+	if h := H; h != nil && h.Rename != nil {
+		return h.Rename(o, n)
+	}
+	return os.Rename(o, n)
+}
+
+// ---------------------------------------------------------------- R4, real-file mode
+//
+// Same signatures as the os functions they replace, so the instrumented package
+// keeps handling *os.File values.
+
+func realPath(op, name string) (string, error, bool) {
+	if h := H; h != nil && h.RealPath != nil {
+		p, err := h.RealPath(op, name)
+		return p, err, true
+	}
+	return name, nil, false
+}
+
+func OpenReal(name string) (*os.File, error) {
+	p, err, _ := realPath("open", name)
+	if err != nil {
+		return nil, err
+	}
+	return os.Open(p)
+}
+
+func CreateReal(name string) (*os.File, error) {
+	p, err, _ := realPath("create", name)
+	if err != nil {
+		return nil, err
+	}
+	return os.Create(p)
+}
+
+func OpenFileReal(name string, flag int, perm fs.FileMode) (*os.File, error) {
+	op := "open"
+	if flag&(os.O_WRONLY|os.O_RDWR|os.O_CREATE|os.O_TRUNC|os.O_APPEND) != 0 {
+		op = "create"
+	}
+	p, err, _ := realPath(op, name)
+	if err != nil {
+		return nil, err
+	}
+	return os.OpenFile(p, flag, perm)
+}
+
+func ReadFileReal(name string) ([]byte, error) {
+	p, err, _ := realPath("open", name)
+	if err != nil {
+		return nil, err
+	}
+	return os.ReadFile(p)
+}
+
+func WriteFileReal(name string, data []byte, perm fs.FileMode) error {
+	p, err, _ := realPath("create", name)
+	if err != nil {
+		return err
+	}
+	return os.WriteFile(p, data, perm)
+}
+
+func RemoveReal(name string) error {
+	p, err, sim := realPath("remove", name)
+	if err != nil {
+		return err
+	}
+	if sim {
+		return nil // the simulated disk has already dropped it
+	}
+	return os.Remove(p)
+}
+
+func RenameReal(o, n string) error {
 	if h := H; h != nil && h.Rename != nil {
 		return h.Rename(o, n)
 	}
